@@ -56,6 +56,7 @@ func (v Val) String() string {
 type State struct {
 	cells map[*ssa.Alloc]Val
 	heap  map[string]*Term
+	epoch int // identifies the latest "modifies heap" havoc of this lineage (0: function entry)
 }
 
 func newState() *State {
@@ -70,24 +71,25 @@ func (s *State) clone() *State {
 	for k, v := range s.heap {
 		n.heap[k] = v
 	}
+	n.epoch = s.epoch
 	return n
 }
 
 type Obligation struct {
-	Name     string
-	Tags     []string
-	Func     string
-	Kind     string
-	Pos      string
-	Text     string // human-readable description (clause text, instruction)
-	NAxioms  int    // number of ex.axioms visible
-	Path     *Term
-	Goal     *Term
-	ex       *Exec
-	Bounded  int // >0: downstream of a loop unrolled K times
-	Unsupp   string
-	IsCover  bool
-	Inputs   []ModelInput
+	Name    string
+	Tags    []string
+	Func    string
+	Kind    string
+	Pos     string
+	Text    string // human-readable description (clause text, instruction)
+	NAxioms int    // number of ex.axioms visible
+	Path    *Term
+	Goal    *Term
+	ex      *Exec
+	Bounded int // >0: downstream of a loop unrolled K times
+	Unsupp  string
+	IsCover bool
+	Inputs  []ModelInput
 }
 
 type ModelInput struct {
@@ -110,13 +112,15 @@ type loopInfo struct {
 	ordinal int
 	spec    *LoopSpec
 	// at header after havoc:
-	headState *State
-	ghosts    map[string]Val
-	measure   *Term
-	headReach *Term
-	modCells  map[*ssa.Alloc]bool
-	modHeaps  map[string]bool
-	lateHavoc map[string]bool
+	headState  *State
+	ghosts     map[string]Val
+	measure    *Term
+	headReach  *Term
+	modCells   map[*ssa.Alloc]bool
+	modHeaps   map[string]bool
+	lateHavoc  map[string]bool
+	havocAll   bool
+	entryState *State
 }
 
 type Exec struct {
@@ -181,6 +185,8 @@ type Exec struct {
 	directRecover bool
 	dbAx          []dbAxiom
 	constArrs     map[string]*Term
+	epochCounter  int
+	pendingBinds  []*Clause
 	callCount     map[string]int
 	concatPrefix  map[string]string
 	globalFacts   []*Term // ground facts valid in every state (literal bytes, concat consequences)
@@ -329,7 +335,26 @@ func (ex *Exec) getHeap(st *State, name string, s Sort) *Term {
 	if t, ok := st.heap[name]; ok {
 		return t
 	}
-	return ex.heapInit(name, s)
+	if st.epoch == 0 || strings.HasPrefix(name, "$") {
+		return ex.heapInit(name, s)
+	}
+	// never touched since the last whole-heap havoc of this lineage
+	if old, ok := ex.heapSort[name]; ok && old != s {
+		panic(fmt.Sprintf("heap %s sort %s vs %s", name, old, s))
+	}
+	ex.heapSort[name] = s
+	return ex.D.Const(fmt.Sprintf("%s@e%d", name, st.epoch), s)
+}
+
+// havocAll: every (non-ghost) heap component takes an arbitrary new value.
+func (ex *Exec) havocAll(st *State) {
+	ex.epochCounter++
+	st.epoch = ex.epochCounter
+	for k := range st.heap {
+		if !strings.HasPrefix(k, "$") {
+			delete(st.heap, k)
+		}
+	}
 }
 
 func (ex *Exec) setHeap(st *State, name string, t *Term) {
@@ -704,6 +729,31 @@ func (ex *Exec) mergeStates(b *ssa.BasicBlock, preds []*ssa.BasicBlock, conds []
 		return ex.outState[preds[0]].clone()
 	}
 	res := newState()
+	sameEpoch := true
+	for _, p := range preds[1:] {
+		if ex.outState[p].epoch != ex.outState[preds[0]].epoch {
+			sameEpoch = false
+		}
+	}
+	if sameEpoch {
+		res.epoch = ex.outState[preds[0]].epoch
+	} else {
+		// materialise every known heap component in each predecessor so that
+		// the merge below sees their (epoch-specific) values
+		for name, srt := range ex.heapSort {
+			if strings.HasPrefix(name, "$") {
+				continue
+			}
+			for _, p := range preds {
+				st := ex.outState[p]
+				if _, ok := st.heap[name]; !ok {
+					st.heap[name] = ex.getHeap(st, name, srt)
+				}
+			}
+		}
+		ex.epochCounter++
+		res.epoch = ex.epochCounter
+	}
 	// cells
 	keys := map[*ssa.Alloc]bool{}
 	for _, p := range preds {
@@ -715,7 +765,9 @@ func (ex *Exec) mergeStates(b *ssa.BasicBlock, preds []*ssa.BasicBlock, conds []
 	for k := range keys {
 		ks = append(ks, k)
 	}
-	sort.Slice(ks, func(i, j int) bool { return ks[i].Pos() < ks[j].Pos() || (ks[i].Pos() == ks[j].Pos() && ks[i].Name() < ks[j].Name()) })
+	sort.Slice(ks, func(i, j int) bool {
+		return ks[i].Pos() < ks[j].Pos() || (ks[i].Pos() == ks[j].Pos() && ks[i].Name() < ks[j].Name())
+	})
 	for _, k := range ks {
 		all := true
 		var vs []Val
